@@ -440,15 +440,135 @@ fn base(family: Ty, values: Vec<ValSpec>) -> C15 {
     C15 { family, values, cut: None, init_buf: 0, max_len_mode: 0, use_ctx: false, src: vec![], caller: vec![] }
 }
 
+fn generate_single(r: &mut Rng, tier: Tier) -> C15 {
+    let family = *r.pick(IO_TYS);
+    let big = tier == Tier::Thorough && r.chance(1, 40);
+    let nframes = if big { r.range(1, 2) } else { 1 + r.below(8) } as usize;
+    // size profile of this run
+    let profile = r.below(4);
+    let values: Vec<ValSpec> = (0..nframes)
+        .map(|_| {
+            let size = match profile {
+                0 => r.below(4) as u32,
+                1 => r.below(30) as u32,
+                _ => gen_size(r, big),
+            };
+            ValSpec { ty: family, size, seed: r.next_u64() }
+        })
+        .collect();
+    let len = stream_len(&values);
+    // swarm: which fault kinds are enabled in this run
+    let en_short = r.chance(3, 4);
+    let en_pending = r.chance(3, 4);
+    let en_err = r.chance(1, 2);
+    let en_cancel = r.chance(3, 4);
+    let en_cut = r.chance(1, 4);
+    let density = *r.pick(&[1u64, 1, 3, 8]); // out of 16
+    let gran = *r.pick(&[1u32, 2, 4, 4, 16, 64, 1024]);
+    let lane_len = r.usize_in(0, if tier == Tier::Quick { 64 } else { 96 });
+    let mut src = Vec::with_capacity(lane_len);
+    for _ in 0..lane_len {
+        let roll = r.below(16);
+        let st = if roll < density {
+            // a fault
+            match r.below(3) {
+                0 if en_pending => Step::Pending,
+                1 if en_err => Step::Err(*r.pick(&ERR_KINDS)),
+                _ if en_pending => Step::Pending,
+                _ => Step::Xfer(1),
+            }
+        } else if en_short {
+            Step::Xfer(1 + r.below(gran as u64) as u32)
+        } else {
+            Step::Xfer(u32::MAX)
+        };
+        src.push(st);
+    }
+    // some runs: pure "Pending before every byte" so that cancellation can land anywhere
+    if en_pending && en_cancel && r.chance(1, 5) {
+        src.clear();
+        for _ in 0..len.min(48) {
+            src.push(Step::Pending);
+            if r.chance(1, 6) {
+                src.push(Step::Pending)
+            }
+            src.push(Step::Xfer(1 + r.below(gran.min(4) as u64) as u32));
+        }
+    }
+    let npend = src.iter().filter(|s| **s == Step::Pending).count();
+    let cancel_rate = *r.pick(&[1u64, 4, 8]);
+    let caller: Vec<Decide> = (0..npend).map(|_| if en_cancel && r.chance(cancel_rate, 16) { Decide::Cancel } else { Decide::Poll }).collect();
+    let cut = if en_cut && len > 0 {
+        Some(if r.chance(1, 2) {
+            r.below(len as u64 + 1) as u32
+        } else {
+            // bias: right around a frame boundary / inside a prefix
+            let mut off = 0usize;
+            let k = r.below(nframes as u64) as usize;
+            for v in &values[..k] {
+                off += reference_encoding(v).map(|p| p.len() + 4).unwrap_or(0);
+            }
+            (off + r.below(6) as usize).min(len) as u32
+        })
+    } else {
+        None
+    };
+    C15 {
+        family,
+        values,
+        cut,
+        init_buf: if r.chance(1, 3) { r.range(1, 300) as u32 } else { 0 },
+        max_len_mode: if r.chance(1, 4) { 1 + r.below(2) as u8 } else { 0 },
+        use_ctx: r.chance(1, 8),
+        src,
+        caller,
+    }
+}
+
+/// A C15 run is either the single-task world or the two-task pipe world (reader-side oracles).
+#[derive(Clone, Debug)]
+pub enum S15 {
+    Single(C15),
+    Pipe(crate::pipe::PipeSc),
+}
+
+impl Scenario for S15 {
+    fn to_json(&self) -> Json {
+        match self {
+            S15::Single(c) => c.to_json(),
+            S15::Pipe(p) => p.to_json(),
+        }
+    }
+    fn from_json(j: &Json) -> Result<Self, String> {
+        if j.get("kind").and_then(|k| k.as_str()) == Some("pipe") {
+            Ok(S15::Pipe(crate::pipe::PipeSc::from_json(j)?))
+        } else {
+            Ok(S15::Single(C15::from_json(j)?))
+        }
+    }
+    fn run(&self, obs: &mut Obs) -> Result<(), Violation> {
+        match self {
+            S15::Single(c) => c.run(obs),
+            S15::Pipe(p) => p.run(crate::pipe::Side::Reader, obs),
+        }
+    }
+    fn shrink(&self) -> Vec<Self> {
+        match self {
+            S15::Single(c) => c.shrink().into_iter().map(S15::Single).collect(),
+            S15::Pipe(p) => p.shrink().into_iter().map(S15::Pipe).collect(),
+        }
+    }
+}
+
 pub struct P15;
 
 impl Property for P15 {
-    type S = C15;
+    type S = S15;
     const ID: &'static str = "C15";
     const LEVEL: &'static str = "exploration";
 
-    fn sweeps(tier: Tier) -> Vec<C15> {
-        let mut out = Vec::new();
+    fn sweeps(tier: Tier) -> Vec<S15> {
+        let mut out: Vec<C15> = Vec::new();
         let fams: &[Ty] = if tier == Tier::Quick { &[Ty::Str, Ty::Borrowed] } else { &[Ty::Str, Ty::Borrowed, Ty::Bytes, Ty::U64, Ty::Tree] };
         for &fam in fams {
             let vals = fixed_values(fam, &[0, 1, 24]);
@@ -525,99 +645,23 @@ impl Property for P15 {
                 out.push(C15 { cut: Some(cut as u32), src, caller: vec![Decide::Cancel], max_len_mode: 1, ..base(fam, vals2.clone()) });
             }
         }
-        out
+        let mut all: Vec<S15> = out.into_iter().map(S15::Single).collect();
+        all.extend(crate::pipe::PipeSc::sweeps().into_iter().map(S15::Pipe));
+        all
     }
 
     fn random_runs(tier: Tier) -> u64 {
         match tier {
-            Tier::Quick => 400_000,
-            Tier::Thorough => 30_000_000,
+            Tier::Quick => 1_500_000,
+            Tier::Thorough => 60_000_000,
         }
     }
 
-    fn generate(r: &mut Rng, tier: Tier) -> C15 {
-        let family = *r.pick(IO_TYS);
-        let big = tier == Tier::Thorough && r.chance(1, 40);
-        let nframes = if big { r.range(1, 2) } else { 1 + r.below(8) } as usize;
-        // size profile of this run
-        let profile = r.below(4);
-        let values: Vec<ValSpec> = (0..nframes)
-            .map(|_| {
-                let size = match profile {
-                    0 => r.below(4) as u32,
-                    1 => r.below(30) as u32,
-                    _ => gen_size(r, big),
-                };
-                ValSpec { ty: family, size, seed: r.next_u64() }
-            })
-            .collect();
-        let len = stream_len(&values);
-        // swarm: which fault kinds are enabled in this run
-        let en_short = r.chance(3, 4);
-        let en_pending = r.chance(3, 4);
-        let en_err = r.chance(1, 2);
-        let en_cancel = r.chance(3, 4);
-        let en_cut = r.chance(1, 4);
-        let density = *r.pick(&[1u64, 1, 3, 8]); // out of 16
-        let gran = *r.pick(&[1u32, 2, 4, 4, 16, 64, 1024]);
-        let lane_len = r.usize_in(0, if tier == Tier::Quick { 64 } else { 96 });
-        let mut src = Vec::with_capacity(lane_len);
-        for _ in 0..lane_len {
-            let roll = r.below(16);
-            let st = if roll < density {
-                // a fault
-                match r.below(3) {
-                    0 if en_pending => Step::Pending,
-                    1 if en_err => Step::Err(*r.pick(&ERR_KINDS)),
-                    _ if en_pending => Step::Pending,
-                    _ => Step::Xfer(1),
-                }
-            } else if en_short {
-                Step::Xfer(1 + r.below(gran as u64) as u32)
-            } else {
-                Step::Xfer(u32::MAX)
-            };
-            src.push(st);
+    fn generate(r: &mut Rng, tier: Tier) -> S15 {
+        if r.chance(1, 6) {
+            return S15::Pipe(crate::pipe::PipeSc::generate(r));
         }
-        // some runs: pure "Pending before every byte" so that cancellation can land anywhere
-        if en_pending && en_cancel && r.chance(1, 5) {
-            src.clear();
-            for _ in 0..len.min(48) {
-                src.push(Step::Pending);
-                if r.chance(1, 6) {
-                    src.push(Step::Pending)
-                }
-                src.push(Step::Xfer(1 + r.below(gran.min(4) as u64) as u32));
-            }
-        }
-        let npend = src.iter().filter(|s| **s == Step::Pending).count();
-        let cancel_rate = *r.pick(&[1u64, 4, 8]);
-        let caller: Vec<Decide> = (0..npend).map(|_| if en_cancel && r.chance(cancel_rate, 16) { Decide::Cancel } else { Decide::Poll }).collect();
-        let cut = if en_cut && len > 0 {
-            Some(if r.chance(1, 2) {
-                r.below(len as u64 + 1) as u32
-            } else {
-                // bias: right around a frame boundary / inside a prefix
-                let mut off = 0usize;
-                let k = r.below(nframes as u64) as usize;
-                for v in &values[..k] {
-                    off += reference_encoding(v).map(|p| p.len() + 4).unwrap_or(0);
-                }
-                (off + r.below(6) as usize).min(len) as u32
-            })
-        } else {
-            None
-        };
-        C15 {
-            family,
-            values,
-            cut,
-            init_buf: if r.chance(1, 3) { r.range(1, 300) as u32 } else { 0 },
-            max_len_mode: if r.chance(1, 4) { 1 + r.below(2) as u8 } else { 0 },
-            use_ctx: r.chance(1, 8),
-            src,
-            caller,
-        }
+        S15::Single(generate_single(r, tier))
     }
 
     fn rule() -> &'static str {
